@@ -43,13 +43,16 @@ def unshare_available() -> bool:
 
 
 class C15IsolatedShell(VfShellRemoteConnector):
-    """config: locations=[names], slots, mount=<abs dir>, roots=<abs dir holding one dir per location>"""
+    """config: locations=[names], slots, mount=<abs dir>, roots=<abs dir holding one dir per location>,
+    fail_mkdir=[location names on which every `mkdir` command fails (exit status 1, nothing created)]"""
 
     def __init__(self, deployment_name, config_dir, locations=None, slots=8, mount=None, roots=None,
-                 transferBufferSize=65536):
+                 fail_mkdir=None, transferBufferSize=65536):
         super().__init__(deployment_name, config_dir, locations, slots, transferBufferSize)
         self.mount = mount
         self.roots = roots
+        self.fail_mkdir = set(fail_mkdir or ())
+        self.injected = 0
         self.isolated = bool(mount and roots) and unshare_available()
         self.ops = []  # (location, words) harness-side record of commands
         if mount:
@@ -100,6 +103,9 @@ class C15IsolatedShell(VfShellRemoteConnector):
         Sched.inflight += 1
         try:
             await Sched.jitter()
+            if location.name in self.fail_mkdir and command and command[0] == "mkdir":
+                self.injected += 1  # fault injection: the remote side refuses to create directories
+                return ("mkdir: cannot create directory (vf injected fault)", 1) if capture_output else None
             if job_name is None and stdin is None:
                 with contextlib.suppress(WorkflowExecutionException):
                     return await utils.run_in_shell(
